@@ -1,10 +1,11 @@
 (** C11 — lexer ambiguity.  The Coq part: the semantics in which "both match a common string" is
     judged, and the soundness of a witness: if the executable matcher accepts a string for two
     terminals then both terminals denote it.  Every positive overlap verdict of the check is such a
-    kernel-checked witness.  (The negative direction -- no common string -- is decided by an
-    unverified derivative-product search; partial.) *)
+    kernel-checked witness.  The negative direction -- no common string -- is decided by a
+    verified procedure (Lex/Disjoint.v): a [Some true] answer of [disjoint_check], computed by the
+    kernel for every pair the check claims disjoint, is a theorem about the denotations. *)
 From Coq Require Import List NArith Bool.
-From LV Require Import Lex.Regex.
+From LV Require Import Lex.Regex Lex.Disjoint.
 Import ListNotations.
 
 Theorem C11_witness_sound : forall r1 r2 w,
@@ -17,3 +18,16 @@ Print Assumptions C11_witness_sound.
 Theorem C11_matcher_decides_membership : forall r w, matchb r w = true <-> matches r w.
 Proof. intros r w. apply matchb_spec. Qed.
 Print Assumptions C11_matcher_decides_membership.
+
+(** the negative direction: when the derivative exploration answers [Some true], every byte string
+    matched by both terminals is matched by h (h = the higher-precedence terminals that would win);
+    with h = RNone the two terminals have no string in common *)
+Theorem C11_disjointness_check_is_sound : forall fuel r1 r2 h, disjoint_check fuel r1 r2 h = Some true ->
+  forall w, Forall (fun c => (c < 256)%N) w -> matches r1 w -> matches r2 w -> matches h w.
+Proof. exact disjoint_check_sound. Qed.
+Print Assumptions C11_disjointness_check_is_sound.
+
+Theorem C11_no_common_string : forall fuel r1 r2, disjoint_check fuel r1 r2 RNone = Some true ->
+  forall w, Forall (fun c => (c < 256)%N) w -> ~ (matches r1 w /\ matches r2 w).
+Proof. exact no_common_string. Qed.
+Print Assumptions C11_no_common_string.
